@@ -113,6 +113,34 @@ def arrangements(rng, terms, limit=24):
             yield "(" + " + ".join(ts[: k + 1]) + ") + (" + " + ".join(ts[k + 1:]) + ")" if k + 1 < len(ts) else " + ".join(ts)
 
 
+_USER_CLASSES = {}
+
+
+def with_user_subclasses(root, rng):
+    """the same expression with some of its + and - nodes (and a product) being instances of a caller's own
+    subclasses of the node classes (a subclass that only changes how the node is drawn): they ARE additions,
+    subtractions and products"""
+    from mathy_core import expressions as E
+
+    if not _USER_CLASSES:
+        for base in (E.AddExpression, E.SubtractExpression, E.MultiplyExpression, E.PowerExpression, E.NegateExpression):
+            _USER_CLASSES[base] = type("Highlighted" + base.__name__, (base,), {"color": property(lambda self: "red")})
+
+    def rebuild(n):
+        if n is None:
+            return None
+        if isinstance(n, E.BinaryExpression):
+            cls = type(n)
+            if cls in _USER_CLASSES and rng.random() < 0.6:
+                cls = _USER_CLASSES[cls]
+            return cls(rebuild(n.left), rebuild(n.right))
+        if isinstance(n, E.NegateExpression) and type(n) in _USER_CLASSES and rng.random() < 0.5:
+            return _USER_CLASSES[type(n)](rebuild(n.get_child()))
+        return n.clone()
+
+    return rebuild(root)
+
+
 def check_like_terms(rec, rng):
     import mathy_core.util as U
 
@@ -133,6 +161,17 @@ def check_like_terms(rec, rng):
             answers[text] = bool(U.has_like_terms(root))
         except Exception as e:
             answers[text] = "raised " + type(e).__name__
+        if rng.random() < 0.35:
+            try:
+                other = with_user_subclasses(root, rng)
+            except Exception:
+                other = None
+            if other is not None:
+                rec.arm("like:nodes-of-user-subclasses")
+                try:
+                    answers[text + "   [some + - * nodes are instances of user subclasses]"] = bool(U.has_like_terms(other))
+                except Exception as e:
+                    answers[text + "   [some + - * nodes are instances of user subclasses]"] = "raised " + type(e).__name__
     if len(answers) < 2:
         return
     rec.ev()
@@ -621,7 +660,16 @@ def replay(rec, cfg, w):
     elif "terms" in w:
         import mathy_core.util as U
 
-        a, b = U.has_like_terms(D.parse(w["a"])), U.has_like_terms(D.parse(w["b"]))
+        def ask(text, k):
+            mark = "   [some + - * nodes"
+            if mark not in text:
+                return U.has_like_terms(D.parse(text))
+            root = D.parse(text.split(mark)[0])
+            # (which nodes were subclass instances is not recorded: a few assignments are tried)
+            outs = {bool(U.has_like_terms(with_user_subclasses(root, cfg.rng(f"replay{k}{j}")))) for j in range(12)}
+            return outs.pop() if len(outs) == 1 else "differs between assignments of the subclasses"
+
+        a, b = ask(w["a"], 0), ask(w["b"], 1)
         rec.ev()
         if a != b:
             rec.violation("C16", "like-terms/order-or-grouping", "has_like_terms depends on the order or grouping of the added terms", dict(w))
